@@ -63,6 +63,15 @@ def es_worker(args):
     name, job, opts = args
     t0 = time.time()
     out = {'name': name, 'job': job, 'opts': opts, 'status': 'ok', 'rels': [], 'stats': {}, 'trace': {}, 'replays': []}
+    import signal
+
+    class HardTimeout(Exception):
+        pass
+
+    def on_alarm(sig, frm):
+        raise HardTimeout()
+    signal.signal(signal.SIGALRM, on_alarm)
+    signal.alarm(int(opts.get('hard_timeout_s', 3 * opts.get('budget_s', 600) + 300)))
     try:
         import sweep
         dagp, info = trace(job)
@@ -143,9 +152,14 @@ def es_worker(args):
                         worst = {'x': x, 'a': a, 'b': b, 'dev': dev}
             r['native_worst'] = worst
         out['rels'] = rels
+    except HardTimeout:
+        out['status'] = 'timeout'
+        out['error'] = 'job exceeded its hard wall-clock limit'
     except Exception as e:
         out['status'] = 'error'
         out['error'] = traceback.format_exc()[-1500:]
+    finally:
+        signal.alarm(0)
     out['wall_s'] = time.time() - t0
     return out
 
